@@ -318,6 +318,7 @@ func (g *gen) genOp(k string) Op {
 					nc.Threshold = []int{1, 2, 3, 1000}[r.Intn(4)]
 					nc.TimeoutMs = []int64{100, 250, 1000, 60000, 3600000}[r.Intn(5)]
 				}
+				nc.OffStruct = r.Bool()
 			}
 			op.NCfg = &nc
 		}
